@@ -15,7 +15,8 @@ def run(ctx):
     c04.report(ctx, res, want_go=False, want_tlc=True)
     # API failures make the produced message unusable too
     for m in res["go"]:
-        if m["path"] in ("api", "marshal", "segments", "newmessage"):
+        # (a received message that is built upon must still serialise to a valid message of the same value)
+        if m["path"] in ("api", "marshal", "segments", "newmessage") or m["path"].endswith(("then-alloc", "then-alloc-remarshal")):
             ctx.violation("%s:%s" % (m["path"], encpipe.opsig(m.get("behaviour"), m.get("step", 0))), "arena=%s: %s" % (m.get("arena"), m["diff"]), m)
     c04.cover(ctx, res, "every dump (segment bytes after every API step in every arena; Marshal output after the last step) is decoded by TLC: "
                         "Value = written value, no undefined pointer, disjoint extents, zero padding, framing = segments")
